@@ -18,7 +18,7 @@ CONFIG = 'crates/anemo/src/config.rs'
 TYPES = P.TYPES
 TIMEOUT = 600
 # vacuity guard: cover points that must be reached: history: an add onto an existing entry; ticks: a dial, a re-dial after 1 failure, after 2
-COVER = {'active_peers_history': [0], 'who_is_dialed': [0], 'background_dialing_ticks': [0, 1, 3, 4]}
+COVER = {'active_peers_history': [0, 1], 'who_is_dialed': [0], 'background_dialing_ticks': [0, 1, 3, 4]}
 
 PRELUDE = r'''// GENERATED on every run by /verif/vc from /repo's working tree -- do not edit
 #![allow(dead_code, unused, non_upper_case_globals, non_camel_case_types, static_mut_refs)]
@@ -157,8 +157,18 @@ impl<T> JoinSet<T> {
     pub fn new() -> Self { JoinSet { tasks: Vec::new(), _t: std::marker::PhantomData } }
     pub fn spawn(&mut self, t: Task) { self.tasks.push(t) }
     pub fn len(&self) -> usize { self.tasks.len() }
+    pub async fn shutdown(&mut self) { self.tasks.clear(); }
 }
 pub struct ConnectionManagerRequest;
+// quinn::ConnectionError (payloads dropped) and a one-poll executor for the async tail of the request handler
+#[derive(Clone, Copy, Debug)]
+pub enum ConnectionError { VersionMismatch, TransportError(()), ConnectionClosed(()), ApplicationClosed(()), Reset, TimedOut, LocallyClosed, CidsExhausted }
+pub mod quinn { pub use super::ConnectionError; }
+pub fn block_on<F: std::future::Future>(f: F) -> F::Output {
+    let mut f = std::pin::pin!(f);
+    let mut cx = std::task::Context::from_waker(std::task::Waker::noop());
+    match f.as_mut().poll(&mut cx) { std::task::Poll::Ready(v) => v, std::task::Poll::Pending => panic!("stand-in futures are always ready") }
+}
 pub struct Config {
     pub max_concurrent_outstanding_connecting_connections: Option<usize>,
     pub connection_backoff_ms: Option<u64>,
@@ -269,7 +279,20 @@ pub mod harness {
                 let p = if ch.any_bool() { P1 } else { P2 };
                 ap.remove(&p, DisconnectReason::Requested); assert!(ap.0.acquisitions.get() == before + 1);
             } else if op == 2 {
-                if added[k] { ap.remove_with_stable_id(conns[k].peer, conns[k].sid, DisconnectReason::ConnectionClosed); assert!(ap.0.acquisitions.get() == before + 1); }
+                if added[k] {
+                    // the handler of connection k exits (for any reason the connection can end): the REAL tail of InboundRequestHandler::start runs
+                    let reasons = [ConnectionError::ConnectionClosed(()), ConnectionError::LocallyClosed, ConnectionError::TimedOut, ConnectionError::ApplicationClosed(())];
+                    let reason = reasons[ch.below(4) as usize];
+                    let stored_is_k = { let g = ap.0.cell.borrow(); match g.connections.get(&conns[k].peer) { Some(c) => c.sid == conns[k].sid, None => false } };
+                    let (len0, ev0, closed0) = (ap.0.cell.borrow().connections.len(), event_len(), [is_closed(0), is_closed(1), is_closed(2), is_closed(3)]);
+                    let mut inflight: JoinSet<()> = JoinSet::new();
+                    block_on(inbound_request_handler_start_tail(&ap, &conns[k], reason, &mut inflight));
+                    if !stored_is_k {
+                        // "the end of an older, replaced connection never removes or disturbs its replacement"
+                        assert!(ap.0.cell.borrow().connections.len() == len0 && event_len() == ev0, "the exit of a connection that is not the registered one changed the listing or emitted an event");
+                        assert!([is_closed(0), is_closed(1), is_closed(2), is_closed(3)] == closed0, "the exit of a connection that is not the registered one closed a connection");
+                    } else { cover(1); }
+                }
             } else if snapshot.is_none() {
                 let (rx, peers) = ap.subscribe(); assert!(ap.0.acquisitions.get() == before + 1);
                 snapshot = Some((rx.start, peers));
@@ -304,13 +327,15 @@ pub mod harness {
         let ap = ActivePeers::new(8);
         let co = conn(10, remote, ConnectionOrigin::Outbound);
         let ci = conn(11, remote, ConnectionOrigin::Inbound);
-        // the two handshakes may complete any time apart (still within the connect timeout): the earlier one is 0 s, 1 s or 3 s old
-        let age = ch.below(3); unsafe { let a = if age == 0 { 0 } else if age == 1 { 1_000_000_000 } else { 3_000_000_000 }; ESTABLISHED_NS[10] = CLOCK_NS - a; ESTABLISHED_NS[11] = CLOCK_NS - a; }
+        // the two handshakes may complete any time apart (still within the connect timeout): the earlier one is 0 s, 1 s, 3 s or 9 s old
+        let age = ch.below(4); unsafe { let a = if age == 0 { 0 } else if age == 1 { 1_000_000_000 } else if age == 2 { 3_000_000_000 } else { 9_000_000_000 }; ESTABLISHED_NS[10] = CLOCK_NS - a; ESTABLISHED_NS[11] = CLOCK_NS - a; }
         if ch.any_bool() { let _ = ap.add(&own, co.clone()); let _ = ap.add(&own, ci.clone()); } else { let _ = ap.add(&own, ci.clone()); let _ = ap.add(&own, co.clone()); }
         let (winner, loser) = if remote_greater { (&ci, &co) } else { (&co, &ci) };
         assert!(ap.get(&remote).map(|c| c.sid) == Some(winner.sid));
         assert!(is_closed(loser.sid) && !is_closed(winner.sid));
-        ap.remove_with_stable_id(remote, loser.sid, DisconnectReason::LocallyClosed);
+        let reasons = [ConnectionError::LocallyClosed, ConnectionError::ApplicationClosed(()), ConnectionError::ConnectionClosed(()), ConnectionError::TimedOut];
+        let mut inflight: JoinSet<()> = JoinSet::new();
+        block_on(inbound_request_handler_start_tail(&ap, loser, reasons[ch.below(4) as usize], &mut inflight));
         assert!(ap.get(&remote).map(|c| c.sid) == Some(winner.sid) && !is_closed(winner.sid));
         let n = event_len();
         assert!(n == 1 || n == 3);
@@ -468,6 +493,14 @@ def build(ctx):
     for f in ('add_peer', 'handle_connecting_result', 'handle_connectivity_check', 'dial_peer'):
         t += C.fn(CM, 'impl ConnectionManager :: fn ' + f, 'ConnectionManager::' + f, ['C13', 'C03'], probe=False, rewrites=rw)
     t += '}\n'
+    t += 'impl DisconnectReason {\n'
+    t += C.fn(TYPES, 'impl DisconnectReason :: fn from_quinn_error', 'DisconnectReason::from_quinn_error', ['C09'], probe=False)
+    t += '}\n'
+    t += C.lifted('crates/anemo/src/network/request_handler.rs', 'impl InboundRequestHandler :: fn start', 'InboundRequestHandler::start::tail',
+                  ['C04', 'C05', 'C09'], anchor='let close_reason = loop', kind='tail', name='inbound_request_handler_start_tail', is_async=True,
+                  params='active_peers: &ActivePeers, connection: &Connection, close_reason: ConnectionError, inflight_requests: &mut JoinSet<()>',
+                  rewrites=[dict(rule='X10', pattern='self.active_peers', repl='active_peers', optional=True), dict(rule='X10', pattern='self.connection', repl='connection', optional=True),
+                            dict(rule='X5', pattern='crate::types::DisconnectReason', repl='DisconnectReason', optional=True)])
     t += C.helpers_here()
     t += HARNESS
     return t
